@@ -228,10 +228,18 @@ def requires_closure(sched, name):
     return out
 
 
+def shutdown_bounded(node):
+    """the shutdown phase of this scheduler ends by itself"""
+    return node.get('sdt', 1) is not None or not any(
+        (not is_sched(k)) and k.get('sd') == 'never' for k in node['nodes'])
+
+
 def terminates(node):
     """does this node end by itself (given that cancellation is honoured)?"""
     if not is_sched(node):
         return node['dur'] != 'never'
+    if not shutdown_bounded(node):
+        return False
     if node.get('timeout') is not None:
         return True
     if not node['nodes']:
@@ -277,6 +285,8 @@ def admissible(scn):
 def _adm(node):
     if not is_sched(node):
         return True
+    if not shutdown_bounded(node):
+        return False
     if node.get('timeout') is not None:
         # a scheduler with a timeout terminates whatever its jobs do
         return True
